@@ -33,7 +33,7 @@ ASSUMPTIONS = common.W_EXEC_ASSUMPTIONS
 COMPONENTS = common.W_EXEC_COMPONENTS
 QUICK = {'budget_s': 40}
 THOROUGH = {'budget_s': 480}
-EXPECTED_PROBES = ['derive_history', 'derived_mutated', 'derived_run', 'rerun', 'concurrent_pair', 'shared_plug_class',
+EXPECTED_PROBES = ['later_runs_without_trigger', 'derive_history', 'derived_mutated', 'derived_run', 'rerun', 'concurrent_pair', 'shared_plug_class',
                    'bodies_interleaved']
 
 PROF = gen.profile(max_nodes=7, max_depth=3, w_group=3, w_subtest=2, w_branch=1, w_ckpt_fail=1, w_ckpt_diag=0,
@@ -111,6 +111,11 @@ def run_rerun(tape):
   for ph in gen.all_phase_specs(spec):
     ph['first'] = True
   executes = 2 + tape.draw(2, 'executes')
+  # first execution with a trigger phase that has plugs of its own, later ones without it: what
+  # the trigger needed must not stick to the Test
+  ts = spec['test_start']
+  if isinstance(ts, dict) and ts['plugs'] and tape.chance(600, 'later_start_none'):
+    spec['later_start_none'] = True
   snaps = {}
 
   def extra(sim, ctx, test, threads):
@@ -125,9 +130,21 @@ def run_rerun(tape):
     after = snap(snaps['test'].descriptor.phase_sequence)
     if after != snaps['before']:
       viols.append({'clause': 'descriptor_mutated_by_execution', 'details': {'diff': _first_diff(snaps['before'], after)}})
-    # per-run workload event sequences
     log = obs.log
     bounds = [0] + [r['log_to'] for r in runs]
+    if spec.get('later_start_none'):
+      from workloads import bodies as _b
+      probes['later_runs_without_trigger'] = 1
+      own = set(_b.PLUGS[''][pi].__name__ for ph in gen.all_phase_specs(spec) for pi in ph['plugs'].values())
+      for j in range(1, len(runs)):
+        built = set(e[4] for e in log[bounds[j]:bounds[j + 1]] if e[3] == 'plug_ctor')
+        if not built <= own:
+          viols.append({'clause': 'plug_of_an_earlier_runs_trigger_constructed', 'details': {
+              'run': j, 'constructed': sorted(built), 'declared_by_the_tests_phases': sorted(own)}})
+          break
+      res = run_mod.result_from(obs, viols, probes, True, {'mode': 'rerun', 'executes': executes, 'later_start_none': True})
+      return res
+    # per-run workload event sequences
     seqs = []
     for j in range(len(runs)):
       seqs.append([tuple(e[3:]) for e in log[bounds[j]:bounds[j + 1]]
